@@ -1,6 +1,9 @@
 package schema
 
-import "regexp"
+import (
+	"fmt"
+	"regexp"
+)
 
 var unitsProperty = NewPropertySchema(
 	NewRefSchema("Units", nil),
@@ -1320,7 +1323,9 @@ func UnserializeScope(data any) (*ScopeSchema, error) {
 	}
 	result := s.(*ScopeSchema)
 	// Link the references of the scope to its own objects, as NewScopeSchema does.
-	result.ApplySelf()
+	if err := linkUnserialized(result.ApplySelf); err != nil {
+		return nil, err
+	}
 	return result, nil
 }
 
@@ -1331,6 +1336,26 @@ func UnserializeSchema(data any) (*SchemaSchema, error) {
 		return nil, err
 	}
 	result := s.(*SchemaSchema)
-	result.applyNamespace()
+	if err := linkUnserialized(result.applyNamespace); err != nil {
+		return nil, err
+	}
 	return result, nil
+}
+
+// linkUnserialized runs the link step of a schema that was received as data. Linking panics when a
+// reference names an object that does not exist or a one-of member contradicts the inline flag. That
+// is the contract for schemas that are mis-built in code; a description that arrives over the wire
+// must be answered with an error instead.
+func linkUnserialized(link func()) (err error) {
+	defer func() {
+		if r := recover(); r != nil {
+			cause, ok := r.(error)
+			if !ok {
+				cause = fmt.Errorf("%v", r)
+			}
+			err = fmt.Errorf("invalid schema: %w", cause)
+		}
+	}()
+	link()
+	return nil
 }
